@@ -115,6 +115,11 @@ SNIPPETS = [
     "out = a.cumsum(1)", "out = a.masked_fill(a > 0, 0.0)", "out = a.index_select(1, torch.tensor([2, 0]))", "out = a.clamp_min(0.0)", "out = torch.clamp_max(a, 0.5)", "out = a.amax(dim=1)",
     "out = a.amin(dim=0)", "out = a[a.norm(dim=1) > 1.0]", "out = v[v > 0]", "out = a[a > 0]", "x = a.clone(); s = torch.split(x, [1, 2], dim=1)[0]; s += 1; out = x", "out = a.flatten()",
     "out = torch.cat([g.flatten() for g in a], dim=0)", "out = (a * (w ** 2).unsqueeze(0)) @ b", "out = (a * w ** 2) @ b", "out = torch.logical_and(a > 0, a < 1)", "out = a[0]._is_view()", "out = a.clone()._is_view()",
+    "x = b.clone(); y = x[:2, :2].diagonal(); y += 1; out = x", "x = a.clone(); y = x.unbind(0)[1]; y *= 2; out = x", "x = a.clone(); y = x.chunk(2, dim=1)[1]; y.zero_(); out = x",
+    "x = a.clone(); y = x.flatten(); y += 1; out = x", "x = a.clone(); y = x.T.flatten(); y += 1; out = x", "x = v.clone(); y = x.unsqueeze(0).expand(3, 2); x += 1; out = y",
+    "x = a.clone(); y = x.view_as(a); y -= 1; out = x", "x = a.clone(); y = x.detach(); y += 1; out = x", "x = a.clone(); y = x.numpy(); y += 1; out = x", "x = a.clone(); y = x.contiguous(); y += 1; out = x",
+    "x = a.clone(); y = x.T.contiguous(); y += 1; out = x", "x = a.clone(); y = x.to(a.dtype); y += 1; out = x", "x = a.clone(); y = x.to(torch.float32); y += 1; out = x",
+    "x = a.clone(); y = x[torch.tensor([0])]; y += 1; out = x", "x = a.clone(); y = x[[0, 1]]; y += 1; out = x", "x = a.clone(); y = x.squeeze(); y += 1; out = x", "x = a.clone(); y = x.reshape(2, 3); y += 1; out = x",
     "x = torch.zeros(4, dtype=a.dtype); x[torch.tensor([0, 2])] = 1.0; out = x", "x = torch.zeros(2, 3, dtype=a.dtype); x[:, [0, 2]] = v.unsqueeze(1); out = x",
     "x = torch.zeros(3, 2, dtype=a.dtype); x[torch.tensor([2, 0])] = a[:, :2].T[:2]; out = x", "x = torch.zeros(3, dtype=a.dtype); x[torch.tensor([1])] += 2.0; out = x",
     "x = torch.zeros(2, dtype=a.dtype); x[torch.topk(v, k=1, largest=False)[1]] = 1.0; out = x / 1", "x = torch.zeros(3, dtype=a.dtype); x[torch.topk(w, k=2, largest=False)[1]] = 1.0; out = x / 2",
